@@ -1,5 +1,5 @@
 """C01 - events take effect in time order, urgent-first, then trigger order"""
-from . import kernel, whomay
+from . import kernel, whomay, guards
 
 def check(ctx):
     kernel.run_tables(ctx, 'C01', [
@@ -10,6 +10,8 @@ def check(ctx):
     whomay.kernel_state_writers(ctx, 'C01')
     whomay.schedule_sites(ctx, 'C01')
     whomay.priority_constants(ctx, 'C01')
+    guards.nan_refused(ctx, 'C01', [('Timeout', '__init__', 'delay'), ('Environment', 'run', 'until')],
+                       'a NaN key breaks the heap order of the agenda: occurrences fire out of time order and the clock goes backwards')
     return ('Static analysis of the agenda mechanism: path tables of schedule/step/run/Timeout/Initialize/Interruption/'
             'trigger methods/Process._resume compared with reference tables (key shape (now+delay, priority, next id, '
             'event), guard delay<0, URGENT/NORMAL at every schedule site), whole-repo who-may scans for writers of the '
